@@ -121,6 +121,7 @@ struct WSession {
     bool latched = false;
     std::string tag;
     std::vector<Block> keep;            // argument blocks kept alive until the end of the run
+    uint64_t ncalls = 0;
     WSession(Trace &t, Sink &s, std::map<std::string, uint64_t> &c) : tr(t), sink(s), cnt(c) {}
     ~WSession();
     void setup(uint64_t prefill);
